@@ -23,6 +23,8 @@ type Profile struct {
 	BothPct    int      // % of edits applied identically to both roots
 	SamePct    int      // % of histories that start from identical roots
 	RootPct    int      // % of edits that hit a root itself (deletion, type change, emptying)
+	RootInitPct    int  // % of histories starting with a root that is absent or a file
+	HaltedFlushPct int  // % of steps on a halted session that are `h` steps (no pause/resume)
 	MinSteps   int
 	MaxSteps   int
 }
@@ -30,7 +32,7 @@ type Profile struct {
 // Profiles by property ("" = the mix used when no -prop is given).
 var Profiles = map[string]Profile{
 	"": {Modes: []string{"two-way-safe", "two-way-resolved", "one-way-safe", "one-way-replica"},
-		FaultPct: 20, CancelPct: 10, QuiescePct: 30, UnsyncPct: 15, BothPct: 15, SamePct: 15, RootPct: 3, MinSteps: 3, MaxSteps: 7},
+		FaultPct: 20, CancelPct: 10, QuiescePct: 30, UnsyncPct: 15, BothPct: 15, SamePct: 15, RootPct: 3, RootInitPct: 3, HaltedFlushPct: 30, MinSteps: 3, MaxSteps: 7},
 	"C01": {Modes: []string{"two-way-safe", "two-way-safe", "two-way-safe", "two-way-safe", "two-way-safe", "two-way-resolved"},
 		FaultPct: 22, CancelPct: 6, QuiescePct: 15, UnsyncPct: 10, BothPct: 15, SamePct: 10, RootPct: 2, MinSteps: 3, MaxSteps: 7},
 	"C02": {Modes: []string{"one-way-safe", "one-way-safe", "one-way-replica", "one-way-replica", "two-way-resolved"},
@@ -40,7 +42,7 @@ var Profiles = map[string]Profile{
 	"C04": {Modes: []string{"two-way-safe", "two-way-resolved", "one-way-safe", "one-way-replica"},
 		FaultPct: 0, CancelPct: 0, QuiescePct: 60, UnsyncPct: 12, BothPct: 30, SamePct: 30, RootPct: 2, MinSteps: 4, MaxSteps: 8},
 	"C11": {Modes: []string{"two-way-safe", "two-way-resolved", "one-way-safe", "one-way-replica"},
-		FaultPct: 5, CancelPct: 3, QuiescePct: 10, UnsyncPct: 10, BothPct: 15, SamePct: 15, RootPct: 25, MinSteps: 3, MaxSteps: 7},
+		FaultPct: 5, CancelPct: 3, QuiescePct: 10, UnsyncPct: 10, BothPct: 15, SamePct: 15, RootPct: 25, RootInitPct: 20, HaltedFlushPct: 50, MinSteps: 3, MaxSteps: 7},
 	"C05": {Modes: []string{"two-way-safe", "two-way-resolved", "one-way-safe", "one-way-replica"},
 		FaultPct: 45, CancelPct: 25, QuiescePct: 10, UnsyncPct: 10, BothPct: 12, SamePct: 10, RootPct: 2, MinSteps: 3, MaxSteps: 7},
 }
